@@ -693,7 +693,7 @@ def desugar_iterator_chains(ft, ads):
     — the sequential, in-order, one-element-at-a-time evaluation that Iterator::map/filter/collect are documented to perform; applied only
     when the closure body contains no return/break/continue/`?` (whose meaning would differ inside a loop).  The closure may mutate
     captured variables (FnMut): the loop body performs the same mutations in the same order."""
-    n21 = n22 = 0
+    n21 = n22 = n24 = 0
     n23 = False
     while True:
         sig = ft.sig
@@ -754,8 +754,48 @@ def desugar_iterator_chains(ft, ads):
                     hit = ("D23", es, k, fo, fc, sig[fo + 2].text, cond)
                     break
         if hit is None:
+            # D24: `R.extend(E.into_iter().map(|V| BODY));` as a statement
+            for k in range(len(sig) - 8):
+                tx = [u.text for u in sig[k:k + 3]]
+                if tx == [".", "extend", "("]:
+                    eo = k + 2
+                    ec = match_close(sig, eo)
+                    if sig[ec + 1].text != ";":
+                        continue
+                    inner = sig[eo + 1:ec]
+                    # inner must end with `. map ( | V | BODY )` preceded by `. into_iter ( )`
+                    mi = None
+                    for q in range(len(inner) - 6):
+                        if [u.text for u in inner[q:q + 7]] == [".", "into_iter", "(", ")", ".", "map", "("]:
+                            mi = q
+                    if mi is None:
+                        continue
+                    mo = eo + 1 + mi + 6
+                    mc = match_close(sig, mo)
+                    if mc != ec - 1:
+                        continue
+                    if not (sig[mo + 1].text == "|" and sig[mo + 2].kind == "ident" and sig[mo + 3].text == "|"):
+                        continue
+                    body = sig[mo + 4:mc]
+                    if not body or _has_control_flow(body):
+                        continue
+                    rs = _expr_start(sig, k - 1)
+                    # the receiver must start a statement
+                    if sig[rs - 1].text not in (";", "{", "}"):
+                        continue
+                    hit = ("D24", rs, k, eo, ec, mi, mo, mc, sig[mo + 2].text, body)
+                    break
+        if hit is None:
             break
-        if hit[0] == "D23":
+        if hit[0] == "D24":
+            _, rs, k, eo, ec, mi, mo, mc, v_name, body = hit
+            recv = ft.text[sig[rs].s:sig[k - 1].e]
+            src = ft.text[sig[eo + 1].s:sig[eo + 1 + mi - 1].e]
+            btxt = ft.text[body[0].s:body[-1].e]
+            rep = f"for {v_name} in {src} {{ {recv}.insert({btxt}); }}"
+            ft.edits.append((sig[rs].s, sig[ec + 1].e - sig[rs].s, rep))
+            n24 += 1
+        elif hit[0] == "D23":
             _, es, k, fo, fc, f_name, cond = hit
             recv = ft.text[sig[es].s:sig[k - 1].e]
             ctxt = ft.text[cond[0].s:cond[-1].e]
@@ -787,6 +827,8 @@ def desugar_iterator_chains(ft, ads):
         ft.relex()
     if n21:
         ads.append({"rule": "D21", "what": f"{n21} `.into_iter().enumerate().map(|(i, x)| ..).collect_vec()` chain(s) desugared to an explicit loop pushing onto a Vec"})
+    if n24:
+        ads.append({"rule": "D24", "what": f"{n24} statement(s) `set.extend(e.into_iter().map(|v| f(v)));` desugared to `for v in e {{ set.insert(f(v)); }}` (Extend inserts the items in iteration order)"})
     if n23:
         ads.append({"rule": "D23", "what": "`let v: Vec<_> = E.into_iter().filter(|p| ..).collect();` desugared to an explicit loop that evaluates the condition on a reference to each element and pushes the elements that satisfy it"})
     if n22:
